@@ -24,6 +24,7 @@ LEVEL_TEXT = ('Decides, for all paths and call sites: a successful rule body alw
               '(@nomemo -> no memo store). How often an action runs for a given input is not decided.')
 TECHNIQUE += '; per-parse-state rule (no action lookup or result is cached on an object that outlives the parse under a key that omits the semantics object)'
 LEVEL_TEXT += ' Added clause: nothing that depends on the semantics object is cached across parses on the engine or model.'
+TECHNIQUE += '; memo store gated by memoizable (= C04.R2)'
 LEVEL_NOTE = ('Trusted: call-graph resolution (unresolved value calls are assumed to reach actions); exception hierarchy '
               'read from tatsu/exceptions.py.')
 EXPLANATION = ('Static analysis of /repo sources, TatSu not imported. rule_call/semantics_call are executed abstractly with '
